@@ -10,7 +10,9 @@ structural facts the theorems of Props/C15.v are stated over:
   gen_keys  the separators of CallId.key / TaskId.key and the from-the-right split
   gen_bind  apply_defaults() present?
   gen_cds   comparison operators of _maybe_store, reference prefix/separator, pass-through of
-            reference-like strings, and WHAT the process-local LRU holds (object or text)
+            reference-like strings, WHAT the process-local LRU holds (object or text), whether
+            _maybe_store writes the backend row unconditionally or skips keys remembered in a
+            process-local set, and whether purge() forgets that set
   gen_json  reserved keys + envelope field names on the encoder and on the decoder side, order of
             the decoder's tests
   gen_args_hash_full / gen_key_hash_full   whole SHA-256 hex digest used (collision oracle)
@@ -285,7 +287,13 @@ def parse_cds(src: str, reserved: dict) -> dict:
             and ms[0].value.func.id == "len"):
         _fail("_maybe_store: size = len(serialized)")
     size = ms[0].targets[0].id
-    ifs = [s for s in ms if isinstance(s, ast.If)]
+    gpos = [i for i, st in enumerate(ms) if isinstance(st, ast.Assign) and isinstance(st.value, ast.Call)
+            and isinstance(st.value.func, ast.Name) and st.value.func.id == "_generate_key"]
+    if len(gpos) != 1:
+        _fail("_maybe_store: one key = _generate_key(serialized)")
+    if any(isinstance(x, ast.Return) for st in ms[:gpos[0]] if not isinstance(st, ast.If) for x in ast.walk(st)):
+        _fail("_maybe_store: return outside the size tests")
+    ifs = [s for s in ms[:gpos[0]] if isinstance(s, ast.If)]
     if len(ifs) != 3:
         _fail("_maybe_store: expected three ifs (min, max, warn)")
 
@@ -310,13 +318,83 @@ def parse_cds(src: str, reserved: dict) -> dict:
     hi = {ast.Gt: "CGt", ast.GtE: "CGe"}.get(type(b2.ops[0])) or _fail("_maybe_store: max comparison operator")
     if returns_inline(i2):
         _fail("_maybe_store: the warn branch returns")
-    tail = ms[-3:]
-    if not (isinstance(tail[0], ast.Assign) and isinstance(tail[0].value, ast.Call) and isinstance(tail[0].value.func, ast.Name)
-            and tail[0].value.func.id == "_generate_key" and _d(tail[0].value.args[0]) == _d(ast.Name("serialized", ast.Load()))
-            and isinstance(tail[1], ast.Expr) and isinstance(tail[1].value, ast.Call) and _is_attr_chain(tail[1].value.func, "self._store")
-            and [_d(x) for x in tail[1].value.args] == [_d(ast.Name(tail[0].targets[0].id, ast.Load())), _d(ast.Name("serialized", ast.Load()))]
-            and isinstance(tail[2], ast.Return) and isinstance(tail[2].value, ast.Name) and tail[2].value.id == tail[0].targets[0].id):
-        _fail("_maybe_store: key = _generate_key(serialized); self._store(key, serialized); return key")
+    # key = _generate_key(serialized); <write>; return key      where <write> is either the unconditional
+    #   self._store(key, serialized)
+    # or a write guarded by a process-local set of remembered keys (structural fact store_skip_known):
+    #   if key not in self.X: self._store(key, serialized); self.X.add(key)
+    #   if key in self.X: return key / self._store(key, serialized) / self.X.add(key)
+    gi = [i for i, st in enumerate(ms) if isinstance(st, ast.Assign) and isinstance(st.value, ast.Call)
+          and isinstance(st.value.func, ast.Name) and st.value.func.id == "_generate_key"]
+    if not (len(gi) == 1 and len(ms[gi[0]].targets) == 1 and isinstance(ms[gi[0]].targets[0], ast.Name)
+            and len(ms[gi[0]].value.args) == 1 and _d(ms[gi[0]].value.args[0]) == _d(ast.Name("serialized", ast.Load()))):
+        _fail("_maybe_store: key = _generate_key(serialized)")
+    kname = ms[gi[0]].targets[0].id
+    tail = ms[gi[0] + 1:]
+
+    def is_store(st) -> bool:
+        return (isinstance(st, ast.Expr) and isinstance(st.value, ast.Call) and _is_attr_chain(st.value.func, "self._store")
+                and not st.value.keywords
+                and [_d(x) for x in st.value.args] == [_d(ast.Name(kname, ast.Load())), _d(ast.Name("serialized", ast.Load()))])
+
+    def is_ret_key(st) -> bool:
+        return isinstance(st, ast.Return) and isinstance(st.value, ast.Name) and st.value.id == kname
+
+    def self_attr(n) -> str | None:
+        return n.attr if isinstance(n, ast.Attribute) and isinstance(n.value, ast.Name) and n.value.id == "self" else None
+
+    def is_add(st, attr) -> bool:
+        return (isinstance(st, ast.Expr) and isinstance(st.value, ast.Call) and isinstance(st.value.func, ast.Attribute)
+                and st.value.func.attr == "add" and self_attr(st.value.func.value) == attr and not st.value.keywords
+                and [_d(x) for x in st.value.args] == [_d(ast.Name(kname, ast.Load()))])
+
+    def membership(test, op_cls) -> str | None:
+        if (isinstance(test, ast.Compare) and len(test.ops) == 1 and isinstance(test.ops[0], op_cls)
+                and isinstance(test.left, ast.Name) and test.left.id == kname):
+            return self_attr(test.comparators[0])
+        return None
+    known_attr = None
+    if len(tail) == 2 and is_store(tail[0]) and is_ret_key(tail[1]):
+        pass
+    elif (len(tail) == 2 and isinstance(tail[0], ast.If) and not tail[0].orelse and membership(tail[0].test, ast.NotIn)
+          and len(tail[0].body) == 2 and is_ret_key(tail[1])):
+        known_attr = membership(tail[0].test, ast.NotIn)
+        b0, b1 = tail[0].body
+        if not ((is_store(b0) and is_add(b1, known_attr)) or (is_add(b0, known_attr) and is_store(b1))):
+            _fail("_maybe_store: guarded write is not {self._store(key, serialized); self.<set>.add(key)}")
+    elif (len(tail) == 4 and isinstance(tail[0], ast.If) and not tail[0].orelse and membership(tail[0].test, ast.In)
+          and len(tail[0].body) == 1 and is_ret_key(tail[0].body[0]) and is_ret_key(tail[3])):
+        known_attr = membership(tail[0].test, ast.In)
+        if not ((is_store(tail[1]) and is_add(tail[2], known_attr)) or (is_add(tail[1], known_attr) and is_store(tail[2]))):
+            _fail("_maybe_store: early-return write is not {self._store(key, serialized); self.<set>.add(key)}")
+    else:
+        _fail("_maybe_store: key = _generate_key(serialized); [if key not in self.<set>:] self._store(key, serialized); return key")
+    # purge(): what this instance forgets
+    pg = _body(_find_func(tree, "purge", "BaseClientDataStore"))
+    purge_clears_lru = purge_calls_backend = purge_clears_known = False
+    for st in pg:
+        if _d(st) == _d(ast.parse("self._deserialized_cache.clear()").body[0]):
+            purge_clears_lru = True
+        elif _d(st) == _d(ast.parse("self._purge()").body[0]):
+            purge_calls_backend = True
+        elif known_attr and (_d(st) == _d(ast.parse(f"self.{known_attr}.clear()").body[0])
+                             or _d(st) == _d(ast.parse(f"self.{known_attr} = set()").body[0])):
+            purge_clears_known = True
+        else:
+            _fail("purge: statement not recognised")
+    if not (purge_clears_lru and purge_calls_backend):
+        _fail("purge: does not clear the LRU and the backend")
+    if known_attr:
+        # the remembered-key set may only be created in __init__, consulted/extended in _maybe_store and reset in purge
+        cls_node = [n for n in tree.body if isinstance(n, ast.ClassDef) and n.name == "BaseClientDataStore"][0]
+        for fn_node in cls_node.body:
+            if isinstance(fn_node, (ast.FunctionDef, ast.AsyncFunctionDef)) and fn_node.name not in ("__init__", "_maybe_store", "purge"):
+                if any(self_attr(n) == known_attr for n in ast.walk(fn_node)):
+                    _fail(f"self.{known_attr} is used in {fn_node.name}")
+        init = _find_func(tree, "__init__", "BaseClientDataStore")
+        inits = [n for n in ast.walk(init) if isinstance(n, (ast.Assign, ast.AnnAssign))
+                 and self_attr(n.targets[0] if isinstance(n, ast.Assign) else n.target) == known_attr]
+        if not (len(inits) == 1 and _d(inits[0].value) in (_d(ast.parse("set()", mode="eval").body),)):
+            _fail(f"self.{known_attr} is not initialised to an empty set in __init__")
     # _generate_key
     gk = _body(_find_func(tree, "_generate_key"))
     if not (len(gk) == 2 and isinstance(gk[0], ast.Assign) and isinstance(gk[1], ast.Return) and isinstance(gk[1].value, ast.JoinedStr)):
@@ -416,7 +494,8 @@ def parse_cds(src: str, reserved: dict) -> dict:
             and _d(cd[1]) == _d(ast.parse("self._deserialized_cache[key] = obj").body[0])):
         _fail("_cache_deserialized shape")
     return {"inline_cmp": lo, "over_cmp": hi, "lru_holds_object": holds, "ref_passthrough": passthrough,
-            "ref_prefix": reserved["CLIENT_DATA"], "ref_sep": ref_sep, "key_hash_full": bool(full)}
+            "ref_prefix": reserved["CLIENT_DATA"], "ref_sep": ref_sep, "key_hash_full": bool(full),
+            "store_skip_known": known_attr is not None, "purge_clears_known": purge_clears_known}
 
 
 # ------------------------------------------------------------------ json_serializer.py
@@ -606,7 +685,8 @@ def emit(f: dict) -> str:
         "",
         "Definition gen_cds : cds_facts :=",
         f"  {{| inline_cmp := {c['inline_cmp']}; over_cmp := {c['over_cmp']}; lru_holds_object := {_b(c['lru_holds_object'])};",
-        f"     ref_passthrough := {_b(c['ref_passthrough'])}; ref_prefix := {coq_str(c['ref_prefix'])}; ref_sep := {coq_str(c['ref_sep'])} |}}.",
+        f"     ref_passthrough := {_b(c['ref_passthrough'])}; ref_prefix := {coq_str(c['ref_prefix'])}; ref_sep := {coq_str(c['ref_sep'])};",
+        f"     store_skip_known := {_b(c['store_skip_known'])}; purge_clears_known := {_b(c['purge_clears_known'])} |}}.",
         f"Definition gen_key_hash_full : bool := {_b(c['key_hash_full'])}.",
         "",
         "Definition gen_json : json_facts :=",
